@@ -11,6 +11,8 @@ CONSTANTS
   Fine = FALSE
   UseRing = TRUE
   MaxWritten = 99
+  Split = FALSE
+  SelfFeed = FALSE
 VIEW View
 PROPERTY ReachRingFull
 CHECK_DEADLOCK FALSE
